@@ -55,8 +55,11 @@ ASSUMPTIONS = [
     "If-Modified-Since: the 304 is decided on the entry's date before the variants are looked at (not_modified_before_variant_lookup; a request whose own "
     "tuple was never computed gets it: not_modified_only_for_stored_variant_refuted, replayed on the code). That this is harmless for a client that "
     "sends back the last-modified it was given for the same URL and the same transformed tuple is proved per entry (not_modified_same_entry_sound: the "
-    "entry holds for that tuple the variant the client was served; entry_changes_are_dated: a value never changes under its date), not as one theorem "
-    "over histories with a clock of one-second resolution (C04's arithmetic not_modified_arithmetic would be the other half)",
+    "entry holds for that tuple the variant the client was served; entry_changes_are_dated: a value never changes under its date) and over histories "
+    "(honest_not_modified_sound + served_copy_is_held) under three explicit premises: every later request happens at a time after the client's date "
+    "(a clock that moves on), the entry the 304 is decided on is not younger than that date (what the freshness test establishes up to the one-second "
+    "resolution of HTTP dates: C04's not_modified_arithmetic is the other half, not composed here), and the URL is cached under one of its two keys "
+    "only (pages that do not switch between the preferences QueryMatters and Full)",
 ]
 TRUSTED = ["modelled: src/vary.rs (Settings::add_rule's assertion, VariedResponse::{new,push_response,get,get_headers_for_request,get_by_request,first}, "
            "get_header, apply_header, apply_header_from_settings, derived Ord of Header and Ord of slices), src/lib.rs handle_cache + "
@@ -84,11 +87,14 @@ LEVEL_TEXT = ("Coq theorems, for all rule sets (any number of rules, names, tran
               "invariant-satisfying cache) with stale_position_v0_refuted for the code before that repair; If-Modified-Since: "
               "not_modified_before_variant_lookup (the 304 depends on the entry's date only), not_modified_only_for_stored_variant_refuted (a tuple never "
               "computed gets it; on the code too), not_modified_same_entry_sound + entry_changes_are_dated (a client whose copy stems from the entry "
-              "the 304 is decided on holds the variant that entry has for its tuple; no value changes under its date); vector_refines_assoc_list + "
+              "the 304 is decided on holds the variant that entry has for its tuple; no value changes under its date), honest_not_modified_sound + "
+              "served_copy_is_held (over all histories: a client that was served, or had computed and stored/pushed, the response f for its tuple with "
+              "date L is told 'not modified' on the strength of an entry not younger than L only while that entry holds f for its tuple; premises: "
+              "later requests happen after L, one cache key per URL); vector_refines_assoc_list + "
               "vary_cache_transparent connect the vector model to Model/Cache.v and C03's transparency. Tied to the repo by the differential run of the "
               "real kvarn::handle_cache and of kvarn::handle_connection (loopback) against the extracted models (incl. the order of the stored vector), "
-              "the finite-map spec oracle and an independent Python reading of the property on the implementation's output. Not proved: the history-level "
-              "corollary of the two If-Modified-Since lemmas under a one-second clock; streaming replies.")
+              "the finite-map spec oracle and an independent Python reading of the property on the implementation's output. Not proved: the composition of "
+              "honest_not_modified_sound with the one-second arithmetic of the freshness test (C04); streaming replies.")
 LEVEL_NOTE = ("Trusted: Coq kernel; extraction (sample re-checked in-kernel); hand transcription of vary.rs / handle_cache / the vary-relevant part of send "
               "into Model/Vary.v and Model/VaryWire.v validated by the differential runs incl. the order of the stored vector; moka as a finite map; the "
               "harness's own HTTP/1 client. No axioms.")
@@ -999,5 +1005,9 @@ THEOREM_PINS = [
      '(run_vary_wire_v0 wire416_history = wire416_out_v0 /\\ run_vary_wire wire416_history = wire416_out) /\\ (forall (rules_of : bytes -> list rule) (err416_body : list N) (r : request), err416_body <> [] -> exists (rp : reply) (w : wreply), rp_body rp <> [] /\\ send_v rules_of (fun (_ : request) (hs : list (bytes * bytes)) => hs) err416_body false r (Some (Some (100, 201))) (finishV (fun (_ : request) (_ : fat) => None) r {| f_status := 200; f_headers := []; f_body := B "page"; f_spref := SP_FULL; f_compress := true |} (own_tuple rules_of r) true true) = Ok w /\\ rp = finishV (fun (_ : request) (_ : fat) => None) r {| f_status := 200; f_headers := []; f_body := B "page"; f_spref := SP_FULL; f_compress := true |} (own_tuple rules_of r) true true /\\ w_body w <> [] /\\ assoc (B "vary") (w_headers w) = None)'),
     ('not_modified_only_for_stored_variant_refuted',
      'run_vary ims_history = ims_history_out'),
+    ('honest_not_modified_sound',
+     "forall (hstate : Type) (compute : hstate -> request -> bool -> fat * hstate * list bytes) (cache_on ims_on : bool) (parse_ims : bytes -> option Z) (sanitize_ok : request -> bool) (prime : request -> request) (negotiate : request -> fat -> option (N * bytes)) (rules_of : bytes -> list rule) (dbg : bool) (L : N) (c2 : vcache) (hs2 : hstate) (t1 : N) (ops2 : list op) (c3 : vcache) (hs3 : hstate) (t3 : N) (r r' : request) (f : fat) (k : key) (e : ventry) (c3' : vcache), InvV hstate compute rules_of c2 -> pc_find (key_pq r) c2 = None \\/ pc_find (key_p r) c2 = None -> (exists (k0 : key) (e0 : ventry), (k0 = key_pq r \\/ k0 = key_p r) /\\ pc_find k0 c2 = Some e0 /\\ vr_get_by_request (ve_var e0) r = Ok (Hit (f, own_tuple rules_of r)) /\\ L <= ve_created e0) \\/ pc_find (key_pq r) c2 = None /\\ pc_find (key_p r) c2 = None -> later L t1 ops2 -> runV_state hstate compute cache_on ims_on parse_ims sanitize_ok prime negotiate rules_of dbg (c2, hs2) t1 ops2 = Ok (c3, hs3, t3) -> path_query r' = path_query r -> own_tuple rules_of r' = own_tuple rules_of r -> vlookup r' c3 t3 = (k, Some e, c3') -> ve_created e <= L -> vr_get_by_request (ve_var e) r' = Ok (Hit (f, own_tuple rules_of r'))"),
+    ('served_copy_is_held',
+     "forall (hstate : Type) (compute : hstate -> request -> bool -> fat * hstate * list bytes) (cache_on ims_on : bool), (request -> bool) -> (request -> request) -> forall (negotiate : request -> fat -> option (N * bytes)) (rules_of : bytes -> list rule) (dbg : bool), (forall (r : request) (c : vcache) (now : N) (k : key) (e : ventry) (c1 : vcache) (f : fat), vlookup r c now = (k, Some e, c1) -> vr_get_by_request (ve_var e) r = Ok (Hit (f, own_tuple rules_of r)) -> holds_copy rules_of c1 r f (ve_created e)) /\\ (forall (c1 : vcache) (hs' : hstate) (now : N) (r : request) (f : fat) (lg : list bytes) (lm_of : fat -> bool) (cached : bool) (st' : vstate hstate) (rp : reply) (lg' : list bytes) (calls : list request), may_store cache_on (rq_method r) f = true -> new_and_cache hstate cache_on negotiate rules_of dbg c1 hs' now r f lg lm_of cached = Ok (st', rp, lg', calls) -> holds_copy rules_of (fst st') r f now /\\ rp = finishV negotiate r f (own_tuple rules_of r) (lm_of f) cached) /\\ (forall (c : vcache) (hs : hstate) (now : N) (r : request) (ok : bool) (k : key) (e : ventry) (position : nat) (headers : hcoll) (st' : vstate hstate) (rp : reply) (lg : list bytes) (calls : list request), InvV hstate compute rules_of c -> k = key_pq r \\/ k = key_p r -> pc_find k c = Some e -> vfresh e now = true -> ve_created e <= now -> vr_get_by_request (ve_var e) r = Ok (Miss position headers) -> vary_missing hstate compute cache_on ims_on negotiate rules_of dbg c hs now r ok k position headers = Ok (st', rp, lg, calls) -> holds_copy rules_of (fst st') r (fst (fst (compute hs r ok))) (ve_created e) /\\ rp = finishV negotiate r (fst (fst (compute hs r ok))) (own_tuple rules_of r) ims_on true)"),
 ]
 THEOREMS = THEOREM_PINS
